@@ -29,7 +29,33 @@ def strip_spans(x):
     return x
 
 
+def find_helper(prog, an):
+    """The cfg-selected helper, by role: the crate function called from the FieldDataType::Unknown arm of
+    FieldValue::from_field_type (its name is private and free to change)."""
+    bb = prog.body(CALLER)
+    if bb is None:
+        return None
+    adt = prog.adts.get("variable_versions::data_number::FieldDataType")
+    if adt is None:
+        return None
+    vi = {v["name"]: v["vi"] for v in adt["variants"]}
+    for b2 in sorted(bb.live_blocks()):
+        t2 = bb.term(b2)
+        if t2["k"] == "switch" and peel(an.op(bb, t2["op"]))[0] == "discr" and find(an.op(bb, t2["op"]), lambda n: n == ("arg", 2)):
+            tgt = None
+            for v, tb in t2["targets"]:
+                if v == vi.get("Unknown"):
+                    tgt = tb
+            if tgt is None:
+                tgt = t2["otherwise"]
+            for blk, t, c in bb.calls():
+                if c is not None and c.local and c.kind == "Item" and bb.edge_dominates((b2, tgt), blk) and "nom_derive::Parse" not in c.path:
+                    return c.path
+    return None
+
+
 def run(ctx, env):
+    global HELPER
     ctx.rule("R17.1", "the library type-checks with --no-default-features (nightly front end on every run; stable `cargo check` too in the thorough tier)")
     ctx.rule("R17.2", "the set of function bodies and the MIR of each body are identical in both feature configurations, except the cfg-selected helper parse_unknown_fields")
     ctx.rule("R17.3", "the helper's only caller is FieldValue::from_field_type, from the block selected by the FieldDataType::Unknown discriminant only")
@@ -46,6 +72,7 @@ def run(ctx, env):
            "features=%s type-checks (nightly front end)" % off.facts["config"]["features"])
     ctx.ob("R17.1", "crate", "feature-really-off", "parse_unknown_fields" not in off.facts["config"]["features"] and "parse_unknown_fields" in prog.facts["config"]["features"],
            "default features=%s, off features=%s" % (prog.facts["config"]["features"], off.facts["config"]["features"]))
+    HELPER = find_helper(prog, An(prog)) or find_helper(off, An(off)) or HELPER
     # R17.2
     a, b = prog.facts["bodies"], off.facts["bodies"]
     only_a = sorted(set(a) - set(b))
